@@ -1008,6 +1008,16 @@ class Interpreter:
         self.module_body.append(ast.Assign([ast.Name(name, ast.Store())], value))
         return name
 
+    def rebind(self, old: ast.expr, new: ast.expr):
+        """Make every memo entry and stack slot that holds `old` refer to `new` instead; used when
+        a literal is moved into a variable, so that later GETs see the same object"""
+        for key, value in self.memory.items():
+            if value is old:
+                self.memory[key] = new
+        for i, value in enumerate(self.stack._stack):
+            if value is old:
+                self.stack._stack[i] = new
+
     @staticmethod
     def interpret(pickled: Pickled) -> ast.Module:
         return Interpreter(pickled).to_ast()
@@ -1481,6 +1491,7 @@ class SetItems(StackSliceOpcode):
             interpreter.stack.append(pydict)
         else:
             dict_name = interpreter.new_variable(pydict)
+            interpreter.rebind(pydict, ast.Name(dict_name, ast.Load()))
             update_dict = ast.Dict(keys=update_dict_keys, values=update_dict_values)
             interpreter.module_body.append(
                 ast.Expr(
@@ -1508,6 +1519,7 @@ class SetItem(Opcode):
             interpreter.stack.append(pydict)
         else:
             dict_name = interpreter.new_variable(pydict)
+            interpreter.rebind(pydict, ast.Name(dict_name, ast.Load()))
             assignment = ast.Assign(
                 [ast.Subscript(ast.Name(dict_name, ast.Load()), key, ast.Store())],
                 value,
